@@ -575,3 +575,204 @@ func lockReentrant(r *engine.Run, rule string, funcs []*ssa.Function, minimum in
 		r.Anchor(rule, fmt.Errorf("unresolved anchor: only %d lock acquisitions on the receiver found", n))
 	}
 }
+
+// ---- LOCK-order ---------------------------------------------------------------------
+
+// lockOrder: two mutexes that are ever held together are always taken in the
+// same order. An edge A -> B is recorded wherever B is acquired (Lock or RLock)
+// while A is held on every path to that point (intraprocedural must-lockset
+// plus the locks held on entry on every call chain from the entry set, so every
+// edge is definite). A cycle between distinct locks is an ABBA deadlock for the
+// schedule in which each side got its first lock; for read locks it needs a
+// writer queued in between, which the trie always has.
+//
+// Keys are per owner type and field; acquisitions of the same key while it is
+// held are the business of LOCK-reentrant and are not edges here.
+func lockOrder(r *engine.Run, rule string, w *engine.LockWorld, minAcq int) {
+	type edge struct {
+		from, to string
+		pos      string
+		fn       string
+	}
+	var fns []*ssa.Function
+	for f := range w.Reached {
+		fns = append(fns, f)
+	}
+	sort.Slice(fns, func(i, j int) bool { return fns[i].Pos() < fns[j].Pos() })
+	edges := map[string]edge{}
+	succ := map[string][]string{}
+	acq := 0
+	for _, f := range fns {
+		if len(f.Blocks) == 0 {
+			continue
+		}
+		engine.Instrs(f, func(in ssa.Instruction) {
+			c, ok := in.(*ssa.Call)
+			if !ok {
+				return
+			}
+			key, op, isLock := engine.LockOp(c)
+			if !isLock || (op != "Lock" && op != "RLock") || key == "?" {
+				return
+			}
+			acq++
+			for h := range w.HeldAt(in) {
+				if h == key || h == "?" {
+					continue
+				}
+				k := h + " -> " + key
+				if _, dup := edges[k]; !dup {
+					edges[k] = edge{from: h, to: key, pos: r.P.Pos(in.Pos()), fn: fn(f)}
+					succ[h] = append(succ[h], key)
+				}
+			}
+		})
+	}
+	// a deadlock needs one call chain, not all: a lock of the receiver that is held
+	// (on every path) at a call made on that same receiver, and a lock of the same
+	// owner type that the callee takes through its own receiver on some chain of
+	// such same-receiver calls. Both locks then belong to one object.
+	recvOf := func(f *ssa.Function) ssa.Value {
+		if f.Signature.Recv() == nil || len(f.Params) == 0 || f.Parent() != nil {
+			return nil
+		}
+		return f.Params[0]
+	}
+	ownMutex := func(f *ssa.Function, v ssa.Value) bool {
+		rv := recvOf(f)
+		if rv == nil {
+			return false
+		}
+		if u, ok := v.(*ssa.UnOp); ok && u.Op == token.MUL {
+			v = u.X
+		}
+		for {
+			fa, ok := v.(*ssa.FieldAddr)
+			if !ok {
+				return false
+			}
+			if fa.X == rv {
+				return true
+			}
+			v = fa.X
+		}
+	}
+	type acqSite struct {
+		key, pos, fn string
+	}
+	memo := map[*ssa.Function][]acqSite{}
+	var takes func(f *ssa.Function, seen map[*ssa.Function]bool) []acqSite
+	takes = func(f *ssa.Function, seen map[*ssa.Function]bool) []acqSite {
+		if f == nil || len(f.Blocks) == 0 || seen[f] {
+			return nil
+		}
+		if v, ok := memo[f]; ok {
+			return v
+		}
+		seen[f] = true
+		var out []acqSite
+		rv := recvOf(f)
+		engine.Instrs(f, func(in ssa.Instruction) {
+			c, ok := in.(*ssa.Call)
+			if !ok {
+				return
+			}
+			if key, op, isLock := engine.LockOp(c); isLock {
+				if (op == "Lock" || op == "RLock") && key != "?" && ownMutex(f, c.Call.Args[0]) {
+					out = append(out, acqSite{key, r.P.Pos(c.Pos()), fn(f)})
+				}
+				return
+			}
+			g := c.Call.StaticCallee()
+			if g == nil || rv == nil || len(c.Call.Args) == 0 || c.Call.Args[0] != rv || recvOf(g) == nil {
+				return
+			}
+			out = append(out, takes(g, seen)...)
+		})
+		delete(seen, f)
+		memo[f] = out
+		return out
+	}
+	for _, f := range fns {
+		rv := recvOf(f)
+		if len(f.Blocks) == 0 || rv == nil {
+			continue
+		}
+		loc := w.Local[f]
+		if loc == nil {
+			continue
+		}
+		own := map[string]bool{}
+		engine.Instrs(f, func(in ssa.Instruction) {
+			if c, ok := in.(*ssa.Call); ok {
+				if key, op, isLock := engine.LockOp(c); isLock && (op == "Lock" || op == "RLock") && ownMutex(f, c.Call.Args[0]) {
+					own[key] = true
+				}
+			}
+		})
+		engine.Instrs(f, func(in ssa.Instruction) {
+			c, ok := in.(*ssa.Call)
+			if !ok {
+				return
+			}
+			g := c.Call.StaticCallee()
+			if g == nil || len(c.Call.Args) == 0 || c.Call.Args[0] != rv || recvOf(g) == nil {
+				return
+			}
+			for h := range loc.At[in] {
+				if !own[h] {
+					continue
+				}
+				for _, a := range takes(g, map[*ssa.Function]bool{}) {
+					if a.key == h {
+						continue
+					}
+					k := h + " -> " + a.key
+					if _, dup := edges[k]; !dup {
+						edges[k] = edge{from: h, to: a.key, pos: a.pos, fn: a.fn + " (called from " + fn(f) + " at " + r.P.Pos(in.Pos()) + ")"}
+						succ[h] = append(succ[h], a.key)
+					}
+				}
+			}
+		})
+	}
+	if acq < minAcq {
+		r.Anchor(rule, fmt.Errorf("unresolved anchor: only %d lock acquisitions reachable (at least %d expected)", acq, minAcq))
+	}
+	var keys []string
+	for k := range edges {
+		keys = append(keys, k)
+	}
+	sort.Strings(keys)
+	reaches := func(from, to string) bool {
+		seen := map[string]bool{from: true}
+		work := []string{from}
+		for len(work) > 0 {
+			x := work[len(work)-1]
+			work = work[:len(work)-1]
+			for _, s := range succ[x] {
+				if s == to {
+					return true
+				}
+				if !seen[s] {
+					seen[s] = true
+					work = append(work, s)
+				}
+			}
+		}
+		return false
+	}
+	for _, k := range keys {
+		e := edges[k]
+		back := reaches(e.to, e.from)
+		detail := ""
+		if back {
+			if o, ok := edges[e.to+" -> "+e.from]; ok {
+				detail = " (the opposite order is taken in " + o.fn + " at " + o.pos + ")"
+			}
+		}
+		r.Check(!back, rule, "order "+k, e.pos, "acquired in "+e.fn+"; no chain of acquisitions leads back from "+e.to+" to "+e.from,
+			e.fn+" acquires "+e.to+" while holding "+e.from+", and elsewhere "+e.from+" is acquired while "+e.to+" is held"+detail+": two goroutines that each got their first lock wait for each other for ever (ABBA deadlock; with read locks as soon as a writer queues up in between)")
+	}
+	r.OK(rule, "acquisitions", "-", fmt.Sprintf("%d lock acquisitions in %d reachable functions, %d distinct held->acquired pairs", acq, len(fns), len(keys)))
+}
